@@ -615,3 +615,90 @@ def make_assembly_contracts(cls):
 
 for _c in ORDER_OF:
     make_assembly_contracts(_c)
+
+
+# ------------------------------------------------------------------------------------------------ energy partial gradients (C06 i)
+import ad
+
+
+def d_wrt_cell(expr, cell):
+    """partial derivative of a spec expression with respect to one stored double (an array cell or a scalar)"""
+    if cell.op == 'idx':
+        seeds = {('@', cell.args[0], cell.args[1].key()): E.const(Fraction(1))}
+    else:
+        seeds = {cell.args[0]: E.const(Fraction(1))}
+    return ad.d_expr(expr, seeds)
+
+
+def make_energy_partials(cls):
+    s = ORDER_OF[cls]
+    nc = 2 * s
+
+    def Tcell(S, i):
+        return tp_field(S, i, 'h') if cls == 'CubicSplineND' else S.v('time_segments_').at(i)
+
+    def seg_total(S, i):
+        D = S.cfg['DIM']
+        return esum([seg_energy(S.v('coeffs_'), nc, i, s, Tcell(S, i), d) for d in range(D)])
+
+    def common_requires(S):
+        n = S.num_segments_
+        S.requires((n >= 0) & (n <= NMAX) & S.v('coeffs_').R.eq(nc * n), 'sizes')
+        if cls == 'CubicSplineND':
+            S.requires(S.v('time_powers_').size().eq(n), 'durations_size')
+        else:
+            S.requires(S.v('time_segments_').size().eq(n), 'durations_size')
+
+    class PartialByCoeffs(Contract):
+        """dE/dC with T held fixed: tangent of the spec energy integral in each coefficient"""
+        key = cls + '.getEnergyPartialGradByCoeffs'
+        nparams = 1
+
+        def spec(self, S):
+            D = S.cfg['DIM']
+            n = S.num_segments_
+            C = S.v('coeffs_')
+            G = S.v('gdC')
+            common_requires(S)
+            S.assigns(G)
+            S.ensures(G.R.eq(nc * n), 'rows')
+            want = lambda i, m, d: d_wrt_cell(seg_total(S, i), C.at(E.const(i) * nc + m, d))
+            S.ensures(S.forall(0, n, lambda i: [G.at(i * nc + m, d).eq(want(i, m, d)) for m in range(nc) for d in range(D)]), 'partial_derivative_in_each_coefficient')
+            S.loop(0, inv=lambda L: [
+                ('range', (L.i >= 0) & (L.i <= n)),
+                ('rows', G.R.eq(nc * n)),
+                ('done', S.forall(0, L.i, lambda k: [G.at(k * nc + m, d).eq(want(k, m, d)) for m in range(nc) for d in range(D)])),
+                ('untouched_rows_zero', S.forall(L.i, n, lambda k: [G.at(k * nc + m, d).eq(0) for m in range(nc) for d in range(D)])),
+            ], variant=lambda L: n - L.i, terms=lambda L: [L.i],
+                local=dict(pre=lambda L: [('zero_%d_%d' % (m, d), G.at(L.i * nc + m, d).eq(0)) for m in range(nc) for d in range(D)],
+                           post=lambda L: [('d_%d_%d' % (m, d), G.at(L.i * nc + m, d).eq(want(L.i, m, d))) for m in range(nc) for d in range(D)]))
+            S.terms(*[S.sk(0) * nc + m for m in range(nc)])
+
+    class PartialByTimes(Contract):
+        """dE/dT_i with the coefficients held fixed"""
+        key = cls + '.getEnergyPartialGradByTimes'
+        nparams = 1
+
+        def spec(self, S):
+            n = S.num_segments_
+            G = S.v('gdT')
+            common_requires(S)
+            S.assigns(G)
+            S.ensures(G.R.eq(n), 'size')
+            want = lambda i: d_wrt_cell(seg_total(S, i), Tcell(S, i))
+            S.ensures(S.forall(0, n, lambda i: G.at(i, 0).eq(want(i))), 'partial_derivative_in_each_duration')
+            S.loop(0, inv=lambda L: [
+                ('range', (L.i >= 0) & (L.i <= n)),
+                ('size', G.R.eq(n)),
+                ('done', S.forall(0, L.i, lambda k: G.at(k, 0).eq(want(k)))),
+            ], variant=lambda L: n - L.i, terms=lambda L: [L.i],
+                local=dict(pre=lambda L: [], post=lambda L: [('dT', G.at(L.i, 0).eq(want(L.i)))]))
+
+    PartialByCoeffs.__name__ = cls + 'PartialByCoeffs'
+    PartialByTimes.__name__ = cls + 'PartialByTimes'
+    register(PartialByCoeffs)
+    register(PartialByTimes)
+
+
+for _c in ORDER_OF:
+    make_energy_partials(_c)
